@@ -47,6 +47,18 @@ Incs == { [kind |-> k, at |-> a] : k \in IncKinds, a \in {"root", "sub"} }
 \* written for the position kind of its first include (declarations for root, statements for sub): including it in
 \* the other kind of position is a syntax error there; twice at root level declares its subroutine twice.
 Agains == { [kind |-> "again", at |-> a] : a \in {"root", "sub"} }
+\* more statement-level positions of an include statement in the main file: inside an if block, an else block, a
+\* switch case of vcl_recv ("ifblock", "elseblock", "case"); in a statement-only main ("snip_scope") at its top
+\* level ("top") or in an if / else block.  The module is a statement list in all of them.
+\* "deep" kinds: the included statement module holds `if (..) { include "inner"; }` (.._if) or has the include in the
+\* else block (.._else), and the INNER module has a syntax error / one ERROR / one WARNING (rule "rv", deprecated).
+\* Whatever the depth and the block, the verdict is that of the program with the modules written in place.
+DeepKinds == {"deep_syntax_if", "deep_syntax_else", "deep_diag_if", "deep_diag_else", "deep_warn_if", "deep_warn_else"}
+NewIncs == { [kind |-> k, at |-> a] : k \in {"ok", "diag", "syntax", "missing"}, a \in {"ifblock", "elseblock", "case"} }
+           \cup { [kind |-> k, at |-> a] : k \in DeepKinds, a \in {"sub", "ifblock"} }
+SnipIncs == { [kind |-> k, at |-> a] : k \in {"ok", "diag", "syntax", "missing", "deep_syntax_if", "deep_diag_else", "deep_warn_if"},
+                                       a \in {"top", "ifblock", "elseblock"} }
+OkIncs == { [kind |-> "ok", at |-> "root"], [kind |-> "ok", at |-> "sub"] }
 \* layout of the lines that carry the E / I / X statements (incs = <<>> only): the diagnostic's token at the start of a
 \* short line ("plain"), right of a {JSON"..."JSON} long string, after tabs, beyond column 300, on a continuation line
 Layouts == {"plain", "longstr", "tab", "wide", "multi"}
@@ -56,10 +68,14 @@ Programs ==
   \cup { [main |-> "vcl", diags |-> D, incs |-> <<x, y>>, layout |-> "plain"] : D \in {{}, {"E"}}, x \in Incs, y \in Incs }
   \cup { [main |-> "vcl", diags |-> D, incs |-> <<x, y>>, layout |-> "plain"] :
             D \in {{}, {"E"}}, x \in { z \in Incs : z.kind \in {"ok", "diag"} }, y \in Agains }
+  \cup { [main |-> "vcl", diags |-> D, incs |-> <<x>>, layout |-> "plain"] : D \in {{}, {"E"}, DiagKinds}, x \in NewIncs }
+  \cup { [main |-> "vcl", diags |-> {}, incs |-> i, layout |-> "plain"] :
+            i \in { <<x, y>> : x \in NewIncs, y \in OkIncs } \cup { <<y, x>> : x \in NewIncs, y \in OkIncs } }
+  \cup { [main |-> "snip_scope", diags |-> D, incs |-> <<x>>, layout |-> "plain"] : D \in {{}, {"E"}}, x \in SnipIncs }
   \cup { [main |-> "syntax", diags |-> {}, incs |-> i, layout |-> "plain"] : i \in {<<>>, << [kind |-> "ok", at |-> "root"] >>} }
   \cup { [main |-> m, diags |-> D, incs |-> <<>>, layout |-> "plain"] : m \in {"snip_scope", "snip_noscope"}, D \in SUBSET {"E", "X"} }
 
-RuleNames == {"re", "rw", "ri", "rx", "rs", "rm", "rd"}   \* rs = snippet-scope-required, rm = include/module-load-failed, rd = subroutine/duplicated
+RuleNames == {"re", "rw", "ri", "rx", "rs", "rm", "rd", "rv"}   \* rs = snippet-scope-required, rm = include/module-load-failed, rd = subroutine/duplicated
 Levels == {"ERROR", "WARNING", "INFO", "IGNORE"}
 NoOv == [r \in RuleNames |-> "-"]
 \* override settings of .falco.yml (linter.rules); "BOGUS" is an invalid level, which falco skips with a notice
@@ -95,7 +111,10 @@ Default(k) == CASE k = "E" -> << [rule |-> "re", sev |-> "ERROR", file |-> "main
                 [] OTHER   -> <<>>                       \* X is suppressed by its ignore comment
 RECURSIVE Concat(_)
 Concat(ss) == IF ss = <<>> THEN <<>> ELSE Head(ss) \o Concat(Tail(ss))
+InnerName(i) == IF i = 1 THEN "mod1_inner" ELSE "mod2_inner"
 IncErrors(p, i) == CASE p.incs[i].kind = "diag"    -> << [rule |-> "re", sev |-> "ERROR", file |-> ModName(i)] >>
+                     [] p.incs[i].kind \in {"deep_diag_if", "deep_diag_else"} -> << [rule |-> "re", sev |-> "ERROR", file |-> InnerName(i)] >>
+                     [] p.incs[i].kind \in {"deep_warn_if", "deep_warn_else"} -> << [rule |-> "rv", sev |-> "WARNING", file |-> InnerName(i)] >>
                      [] p.incs[i].kind = "missing" -> << [rule |-> "rm", sev |-> "ERROR", file |-> "main"] >>
                      \* the first module once more in the same kind of position: its statements are linted again,
                      \* at root level its subroutine is a duplicate declaration
@@ -108,9 +127,9 @@ LinterErrors(p) ==
     [] p.main = "syntax"       -> <<>>
     [] OTHER -> Concat([i \in DOMAIN p.incs |-> IncErrors(p, i)]) \o Concat([j \in 1..4 |-> IF <<"E", "W", "I", "X">>[j] \in p.diags THEN Default(<<"E", "W", "I", "X">>[j]) ELSE <<>>])
 \* lt.FatalError: some module that was loaded does not parse (it stays set whatever is loaded afterwards)
-IncFatal(p) == \E i \in DOMAIN p.incs : \/ p.incs[i].kind \in {"syntax", "nest"}
+IncFatal(p) == \E i \in DOMAIN p.incs : \/ p.incs[i].kind \in {"syntax", "nest", "deep_syntax_if", "deep_syntax_else"}
                                         \/ (p.incs[i].kind = "again" /\ p.incs[i].at # p.incs[1].at)
-SyntaxError(p) == p.main = "syntax" \/ (p.main = "vcl" /\ IncFatal(p))
+SyntaxError(p) == p.main = "syntax" \/ (p.main \in {"vcl", "snip_scope"} /\ IncFatal(p))
 
 Cells ==
   { [prog |-> p, ov |-> o, flags |-> f] : p \in Programs, o \in Overrides, f \in { x \in Flags : WellFormedFlags(x) } }
@@ -119,7 +138,7 @@ Cells ==
 Touches(c) == \E i \in DOMAIN LinterErrors(c.prog) : c.ov[LinterErrors(c.prog)[i].rule] # "-"
 OnlyRw(c) == c.ov # NoOv /\ \A r \in RuleNames \ {"rw"} : c.ov[r] = "-"
 Sparse(c) ==
-  IF Len(c.prog.incs) = 2 \/ (Len(c.prog.incs) = 1 /\ (c.prog.incs[1].at = "sub" \/ c.prog.incs[1].kind = "nest"))
+  IF Len(c.prog.incs) = 2 \/ (Len(c.prog.incs) = 1 /\ (c.prog.incs[1].at # "root" \/ c.prog.incs[1].kind = "nest"))
   THEN c.ov = NoOv /\ c.flags.verb = 0 /\ ~c.flags.generated
   ELSE IF c.prog.layout # "plain"
   THEN \* where a diagnostic is DISPLAYED depends on the verbosity and on its effective level
@@ -132,7 +151,9 @@ Sparse(c) ==
   ELSE /\ c.flags.vsrc = "cli" /\ c.flags.verb \in {0, 2}
        /\ Touches(c)
 \* thorough tier: everything, except that two-include programs take two override settings and the command-line flags only
-Dense(c) == /\ Len(c.prog.incs) = 2 => (c.ov \in {NoOv, [NoOv EXCEPT !["rs"] = "WARNING", !["rm"] = "WARNING"]}
+NewShape(p) == \E i \in DOMAIN p.incs : p.incs[i].at \notin {"root", "sub"} \/ p.incs[i].kind \in DeepKinds
+Dense(c) == /\ NewShape(c.prog) => (c.ov \in {NoOv, [NoOv EXCEPT !["re"] = "WARNING"]} /\ c.flags.vsrc = "cli" /\ ~c.flags.generated)
+            /\ Len(c.prog.incs) = 2 => (c.ov \in {NoOv, [NoOv EXCEPT !["rs"] = "WARNING", !["rm"] = "WARNING"]}
                                         /\ c.flags.vsrc = "cli" /\ ~c.flags.generated)
             /\ c.prog.layout # "plain" => (c.flags.vsrc = "cli" /\ ~c.flags.generated
                                           /\ c.ov \in {NoOv, [NoOv EXCEPT !["re"] = "WARNING"], [NoOv EXCEPT !["ri"] = "ERROR"],
@@ -195,7 +216,7 @@ ParseMain ==
 \* and lt.Errors is dropped without being counted
 Lint ==
   /\ pc = "lint"
-  /\ IF cell.prog.main = "vcl" /\ IncFatal(cell.prog)
+  /\ IF cell.prog.main \in {"vcl", "snip_scope"} /\ IncFatal(cell.prog)
      THEN /\ parseErrs' = IF Json THEN 1 ELSE 0
           /\ printed' = IF Json THEN printed ELSE [printed EXCEPT !.parse = 1]
           /\ runErr' = TRUE /\ pc' = "run_return" /\ UNCHANGED todo
